@@ -14,6 +14,8 @@ CONSTANTS
   EvictingLookup = FALSE
   HonourContext = FALSE
   RejectSeenIds = FALSE
+  RegisterBeforeExistsCheck = FALSE
+  MaxDup = 0
   Emit = FALSE
   Only = "all"
 INIT Init
